@@ -9,6 +9,9 @@ require (
 	gopkg.in/tomb.v2 v2.0.0-20161208151619-d5d1b5820637
 )
 
-require github.com/256dpi/mercury v0.2.0 // indirect
+require (
+	github.com/256dpi/mercury v0.2.0 // indirect
+	github.com/jpillora/backoff v0.0.0-20170918002102-8eab2debe79d // indirect
+)
 
 replace github.com/256dpi/gomqtt => /repo
